@@ -234,9 +234,9 @@ func (t *tokenizer) Next() error {
 			t.unread(c)
 			return t.ok(tokenSymbolOperator, true)
 		}
-		if c2 == ' ' || isIdentifierPart(c2) {
-			t.unread(c)
-		}
+		// Leave the dot in place for readOperator, whatever follows it: "(a .)" and
+		// "(.\n)" hold the symbol '.' just like "(. a)" does.
+		t.unread(c)
 
 		return t.ok(tokenDot, false)
 
